@@ -19,9 +19,124 @@ type Explorer struct {
 	branches  int // solver-decided branches on this path
 	site      string
 	sites     map[string]int
+	known     map[string]uint64 // symbols pinned to a constant by the path condition
+	memo      map[*Term]*Term
+}
+
+// learn records sym == const facts from a condition added to the path condition.
+func (e *Explorer) learn(c *Term) {
+	switch c.op {
+	case "sym":
+		if c.w == 0 {
+			e.pin(c.name, 1)
+		}
+	case "not":
+		a := c.args[0]
+		if a.op == "sym" && a.w == 0 {
+			e.pin(a.name, 0)
+		} else if a.op == "or" {
+			// not(x or y) = not x and not y
+			e.learn(mkNot(a.args[0]))
+			e.learn(mkNot(a.args[1]))
+		} else if a.op == "not" {
+			e.learn(a.args[0])
+		}
+	case "=":
+		a, b := c.args[0], c.args[1]
+		if a.op == "sym" && b.isConst {
+			e.pin(a.name, b.c)
+		} else if b.op == "sym" && a.isConst {
+			e.pin(b.name, a.c)
+		}
+	case "and":
+		e.learn(c.args[0])
+		e.learn(c.args[1])
+	}
+}
+
+func (e *Explorer) pin(name string, v uint64) {
+	if e.known == nil {
+		e.known = map[string]uint64{}
+	}
+	if _, ok := e.known[name]; !ok {
+		e.known[name] = v
+		e.memo = nil
+	}
+}
+
+// simp rewrites t under the pinned symbols (constant folding through mk).
+func (e *Explorer) simp(t *Term) *Term {
+	if len(e.known) == 0 || t.isConst {
+		return t
+	}
+	if e.memo == nil {
+		e.memo = map[*Term]*Term{}
+	}
+	if r, ok := e.memo[t]; ok {
+		return r
+	}
+	var r *Term
+	switch t.op {
+	case "sym":
+		if v, ok := e.known[t.name]; ok {
+			if t.w == 0 {
+				r = bl(v != 0)
+			} else {
+				r = bv(t.w, v)
+			}
+		} else {
+			r = t
+		}
+	case "ite":
+		c := e.simp(t.args[0])
+		if c.isConst {
+			if c.c != 0 {
+				r = e.simp(t.args[1])
+			} else {
+				r = e.simp(t.args[2])
+			}
+		} else {
+			r = mkIte(c, e.simp(t.args[1]), e.simp(t.args[2]))
+		}
+	case "extract", "zero_extend", "sign_extend":
+		a := e.simp(t.args[0])
+		if a == t.args[0] {
+			r = t
+		} else if a.isConst {
+			switch t.op {
+			case "extract":
+				r = bv(t.w, a.c>>uint(t.p2))
+			case "zero_extend":
+				r = bv(t.w, a.c)
+			default:
+				r = bv(t.w, uint64(sext(a.c, a.w)))
+			}
+		} else {
+			r = &Term{op: t.op, w: t.w, args: []*Term{a}, p1: t.p1, p2: t.p2}
+		}
+	default:
+		changed := false
+		args := make([]*Term, len(t.args))
+		for i, a := range t.args {
+			args[i] = e.simp(a)
+			if args[i] != a {
+				changed = true
+			}
+		}
+		if !changed {
+			r = t
+		} else {
+			r = mk(t.op, t.w, args...)
+		}
+	}
+	e.memo[t] = r
+	return r
 }
 
 func (e *Explorer) feasible(c *Term) string {
+	if e.sites != nil {
+		e.sites["Q "+e.site]++
+	}
 	r, _ := e.solver.check([]*Term{c}, nil)
 	return r
 }
@@ -34,12 +149,25 @@ func (e *Explorer) record(d, n int) {
 func (e *Explorer) addPC(c *Term) {
 	e.pc = append(e.pc, c)
 	e.solver.assert(c)
+	e.learn(c)
 }
 
 // branch decides a condition; both sides are explored when both are feasible.
 func (e *Explorer) branch(c *Term) bool {
 	if c.isConst {
 		return c.c != 0
+	}
+	if sc := e.simp(c); sc.isConst {
+		// decided by symbols the path condition pins to constants: recorded as a
+		// forced decision so that replay stays aligned
+		k := len(e.decisions)
+		_ = k
+		if sc.c != 0 {
+			e.record(1, 1)
+			return true
+		}
+		e.record(0, 1)
+		return false
 	}
 	k := len(e.decisions)
 	var d bool
@@ -104,6 +232,9 @@ func (e *Explorer) choice(n int) int {
 
 // assume adds c to the path condition; an infeasible assumption ends the path.
 func (e *Explorer) assume(c *Term) {
+	if sc := e.simp(c); sc.isTrue() {
+		return
+	}
 	if c.isConst {
 		if c.c == 0 {
 			panic(pathAbort{"assume", "assumption false"})
